@@ -69,6 +69,10 @@ class ContractFile:
                 pending = None
         if not self.target or not self.module:
             raise Undecided("%s: missing target/module directive" % self.name)
+        for ob in self.obligations:
+            for pr in ob["props"]:
+                if "*" not in self.props and pr not in self.props:
+                    raise Undecided("%s: obligation %s serves %s but the file's props line does not list it" % (self.name, ob["id"], pr))
         # unwind / stubs per harness (for evidence)
         for ob in self.obligations:
             m = re.search(r"((?:\s*#\[[^\n]*\]\n)+)\s*(?:pub(?:\([^)]*\))?\s+)?fn\s+%s\s*\(" % re.escape(ob["harness"]), self.text)
@@ -100,8 +104,10 @@ def generated_text(kind, scratch):
 
 
 def inject(scratch, files, cfg="kani"):
-    """Append each contract file as `#[cfg(kani)] mod <module> { use super::*; ... }` to its target.
-    Returns info for evidence."""
+    """Append each contract file as a `#[cfg(any(kani, verif_replay))] mod <module> { use super::*; ... }` to
+    its target. Under cfg(kani) the text is compiled by kani-compiler; under cfg(verif_replay) (native replay
+    of counterexamples) every `#[kani::..]` attribute is inert (cfg_attr), so stubs are NOT applied and the
+    real functions run, and `kani::any/assume/cover!` resolve to the replay shim. Returns info for evidence."""
     info = {"injected": [], "generated": {}}
     by_target = {}
     for c in files:
@@ -110,17 +116,30 @@ def inject(scratch, files, cfg="kani"):
         p = os.path.join(scratch, target)
         if not os.path.exists(p):
             raise Undecided("anchor lost: target file %s does not exist" % target)
-        add = ["\n\n// ===== appended by /verif (cfg(%s) only; the text above is /repo's) =====\n" % cfg]
+        add = ["\n\n// ===== appended by /verif (cfg(kani) / cfg(verif_replay) only; the text above is /repo's) =====\n"]
         for c in cs:
             body = re.sub(r"(?m)^(\s*)//!", r"\1//", c.text)
             if c.generate:
                 gen, ginfo = generated_text(c.generate, scratch)
                 info["generated"].update(ginfo)
                 body = body + "\n" + gen
-            add.append("#[cfg(%s)]\n#[allow(unused_imports, dead_code, unused_variables, unused_mut, clippy::all)]\npub(crate) mod %s {\n    use super::*;\n%s\n}\n" % (cfg, c.module, body))
+            # attributes only exist for kani-compiler
+            body = re.sub(r"(?m)^(\s*)#\[kani::(.*)\]\s*$", r"\1#[cfg_attr(kani, kani::\2)]", body)
+            # harness entry points must be callable from the native replay dispatcher
+            for ob in c.obligations:
+                body = re.sub(r"(?m)^fn %s\(\)" % re.escape(ob["harness"]), "pub(crate) fn %s()" % ob["harness"], body)
+            for ob in c.obligations:
+                body += "\n#[cfg(verif_replay)]\n#[no_mangle]\npub extern \"Rust\" fn verif_replay__%s() {\n    %s()\n}\n" % (ob["harness"], ob["harness"])
+            add.append(
+                "#[cfg(any(kani, verif_replay))]\n#[allow(unused_imports, dead_code, unused_variables, unused_mut, unused_unsafe, static_mut_refs, clippy::all)]\npub(crate) mod %s {\n    use super::*;\n    #[cfg(verif_replay)]\n    use crate::verif_replay_shim as kani;\n%s\n}\n"
+                % (c.module, body)
+            )
             info["injected"].append({"contract": c.name, "target": target, "module": c.module})
         with open(p, "a") as f:
             f.write("".join(add))
+    from . import replay as R
+
+    R.prepare_native(scratch, files)
     return info
 
 
